@@ -384,6 +384,9 @@ class Arbiter(object):
                 # if nothing but the number of processes is
                 # changed, just changes this
                 yield w.set_numprocesses(int(new_watcher_cfg['numprocesses']))
+                # remember what the file says now, or a later edit back to
+                # the previous value would not be seen as a change
+                w._cfg['numprocesses'] = new_watcher_cfg['numprocesses']
                 changed = False
             else:
                 changed = len(diff) > 0
